@@ -11,7 +11,7 @@ from common import lean
 from common.ctx import ROOT, stable_hash
 from common.shard import ShardResult, run_shards
 from engines import irgen
-from engines.irlib import World, execute, dump_impl, canon_model_dump, prepare, cleanup, KINDS
+from engines.irlib import World, execute, dump_impl, canon_model_dump, prepare, cleanup, KINDS, model_apply, COMPOUND
 from registry import META
 
 STRUCT_EVENTS = ["cable_add_wire", "cable_remove_wire", "definition_add_port", "definition_remove_port",
@@ -45,6 +45,33 @@ def _mk(name):
 
 for _n in STRUCT_EVENTS + CREATE_EVENTS + DATA_EVENTS:
     setattr(Recorder, _n, _mk(_n))
+
+
+class Guard(CallbackListener):
+    """'another listener' that may veto: registered BEFORE the recorder, it refuses the k-th pin / wire add of
+    the call it is armed for (the recorder then never hears that announcement)."""
+
+    def __init__(self):
+        self.armed = None
+        self.n = 0
+        super().__init__()
+
+    def arm(self, k):
+        self.armed = k
+        self.n = 0
+
+    def _tick(self):
+        if self.armed is not None:
+            if self.n == self.armed:
+                self.armed = None
+                raise ValueError("vetoed by the guard listener")
+            self.n += 1
+
+    def port_add_pin(self, port, pin):
+        self._tick()
+
+    def cable_add_wire(self, cable, wire):
+        self._tick()
 
 
 class Partial(CallbackListener):
@@ -294,6 +321,8 @@ def operands(op):
     """labels (kind,label) an op refers to, excluding the one it creates"""
     t = op["t"]
     out = []
+    if t in COMPOUND:
+        return [{"createPins": ("port", op.get("p")), "createWires": ("cable", op.get("c"))}.get(t, ("definition", op.get("d")))]
     f = {"n": "netlist", "l": "library", "d": "definition", "p": "port", "c": "cable", "i": "instance", "q": "pin", "w": "wire"}
     created = None
     if op.get("create") or t == "createChild" or t == "setTopDef":
@@ -322,6 +351,8 @@ def operands(op):
 def run_script(ops_or_len, rng, profile, drv, res, with_listeners=True, outcomes=None):
     world = World()
     sink = Sink(world)
+    guard = Guard()       # the vetoing listener is part of the scenario in both runs (with / without the observers)
+    world.guard = guard
     rec = Recorder(sink) if with_listeners else None
     part = Partial() if with_listeners else None
     singles = [DeleteOnly(), PopOnly(), ConnectOnly()] if with_listeners else []
@@ -345,7 +376,7 @@ def run_script(ops_or_len, rng, profile, drv, res, with_listeners=True, outcomes
             else:
                 op = None
             if op is None:
-                op = irgen.gen_op(rng, cur, profile) if gen else ops_or_len[k]
+                op = irgen.gen_op(rng, cur, profile, compound=True, veto=True) if gen else ops_or_len[k]
             script.append(op)
             if op["t"] == "data":
                 f = data_step(world, sink, drv, op, k, with_listeners)
@@ -367,8 +398,7 @@ def run_script(ops_or_len, rng, profile, drv, res, with_listeners=True, outcomes
             cleanup(world, op, tok)
             outs.append(out)
             counts = world.counts()
-            m = drv.ask({"cmd": "op", "nI": counts["instance"] + 1,
-                         "op": {kk: v for kk, v in op.items() if kk not in ("create", "asset", "deleter", "stored_only", "proxy")}})
+            m = model_apply(drv, op, {"nI": counts["instance"] + 1})
             if "error" in m:
                 raise RuntimeError("driver rejected op %r: %s" % (op, m["error"]))
             cur = dump_impl(world)
@@ -380,7 +410,7 @@ def run_script(ops_or_len, rng, profile, drv, res, with_listeners=True, outcomes
             # expected: the model's structural announcements + constructor announcements of objects built inside the call
             exp = [e for e in m["events"]]
             created = []
-            if out == "ok" or op.get("veto"):
+            if out == "ok" or op.get("veto") or op.get("veto_at") is not None:
                 t = op["t"]
                 if op.get("create"):
                     kind = {"addLibrary": "library", "addDefinition": "definition", "addPort": "port", "addCable": "cable", "addPin": "pin", "addWire": "wire"}[t]
@@ -388,6 +418,10 @@ def run_script(ops_or_len, rng, profile, drv, res, with_listeners=True, outcomes
                     created.append((kind, lab))
                 elif t == "createChild" or t == "setTopDef":
                     created.append(("instance", op["i"]))
+                elif t == "createPortPins":
+                    created.append(("port", op["p"]))
+                elif t == "createCableWires":
+                    created.append(("cable", op["c"]))
             for (kind, lab) in created:
                 known = lab in world.objs[kind]
                 if kind in ("pin", "wire"):
@@ -407,10 +441,12 @@ def run_script(ops_or_len, rng, profile, drv, res, with_listeners=True, outcomes
             else:
                 got_cmp, exp_cmp = got, exp
             # ---- P: nothing announced for a call that was refused by a precondition
-            if out == "assert" and got:
+            if op.get("veto_at") is not None:
+                pass       # "(unless another listener vetoes it)": what took effect before the veto was announced and is compared below
+            elif out == "assert" and got:
                 findings.append({"kind": "spec", "signature": "%s.refused_assert.announced" % op["t"], "step": k,
                                  "detail": "refused call announced %s" % got[:3]})
-            elif out not in ("ok", "assert", "value") and got:
+            elif out not in ("ok", "assert", "value") and got and op.get("veto_at") is None:
                 findings.append({"kind": "spec", "signature": "%s.refused_%s.announced" % (op["t"], out), "step": k, "detail": "refused call announced %s" % got[:3]})
             # ---- P: announced before it takes effect
             for (name, vis) in sink.early:
@@ -434,6 +470,7 @@ def run_script(ops_or_len, rng, profile, drv, res, with_listeners=True, outcomes
             if any(not f.get("soft") for f in findings):
                 break
     finally:
+        guard.deregister_all_listeners()
         if rec is not None:
             rec.deregister_all_listeners()
             part.deregister_all_listeners()
